@@ -16,7 +16,7 @@ from vmc import cones, core, oracles, seams
 
 PROPERTY = "C08"
 LEVEL = "exploration"
-RULE = ("grid sigma^2 in {1e-4,.01,.09,.25,1,4} x eps in {.05,.1,.5} x delta in {.01,.1,.5} x theta in {30,60,90,120,150} x K in {2,3,5}: real "
+RULE = ("grid sigma^2 in {1e-4,.01,.09,.25,1,4} x eps in {.05,.1,.5} x delta in {.01,.1,.5} x theta in {5,10,30,60,90,120,150} x K in {2,3,5}: real "
         "constructor -> default L -> closed-form failure probability of two instances (gap 1.01 eps along the cone axis; mutually non-dominated pair "
         "1.01 eps from being covered); all observation histories of depth<=3 (K=2) / 2 (K=3) over a 3-value lattice for the P getter; "
         "non-trivial = grid point with a computed failure probability / history with >= 2 distinct means")
@@ -47,7 +47,7 @@ def wedge_prob(a, h, phi, s, n=2000):
 
 def units(ctx):
     us = []
-    for theta in (30, 60, 90, 120, 150):
+    for theta in (5, 10, 30, 60, 90, 120, 150):
         us.append(("grid", theta, ctx.thorough))
     us.append(("hist", 2, 3, ("theta", 60)))
     us.append(("hist", 2, 3, ("theta", 120)))
